@@ -215,7 +215,7 @@ def startOffset (s : Bytes) (i : Int) : Option Nat :=
 def finishOffset (s : Bytes) (j : Int) : Option Nat :=
   if j < 0 then none
   else if j > s.length then some s.length
-  else runeOffset j.toNat s 0
+  else some ((runeOffset j.toNat s 0).getD s.length)
 
 def findFrom (last : Bool) (value sub start : Val) : Res Val := do
   let s ← strArg value
